@@ -25,6 +25,10 @@ class Obligation:
         return (self.name, self.func, self.line)
 
 
+def _is_value(t):
+    return z3.is_int_value(t) or z3.is_rational_value(t) or z3.is_string_value(t) or z3.is_true(t) or z3.is_false(t)
+
+
 def has_quant(f):
     seen, stack = set(), [f]
     while stack:
@@ -60,6 +64,8 @@ class Ctx:
         self.pos = 0
         self.pc = []               # z3 facts
         self.guards = []           # guards of merged evaluation
+        self.params = []           # bound index variables of parametric evaluation
+        self.param_marks = []
         self.counter = 0
         self.cheap = {}            # concrete heap: addr -> cell
         self.next_addr = 1
@@ -68,6 +74,7 @@ class Ctx:
         self.fresh_refs = []       # refs of SMT objects/lists allocated on this path
         self.no_branch = 0
         self.literals = set()
+        self.subst = []
         self.written = []          # heap writes to SMT lists / fields on this path (frame conditions)
         self.func_stack = []
         self.decisions_desc = []
@@ -75,7 +82,30 @@ class Ctx:
     # ------------------------------------------------------------------ symbols / facts
     def fresh(self, name, sort):
         self.counter += 1
+        if self.params:
+            # inside a parametric evaluation (element of a comprehension at a symbolic index): a Skolem function
+            f = z3.Function(f"{name}!{self.counter}", *[p.sort() for p in self.params], sort)
+            return f(*self.params)
         return z3.Const(f"{name}!{self.counter}", sort)
+
+    def push_param(self, k, guard):
+        self.params.append(k)
+        self.param_marks.append(len(self.guards))
+        self.guards.append(guard)
+
+    def pop_param(self):
+        self.params.pop()
+        m = self.param_marks.pop()
+        del self.guards[m:]
+
+    def _close(self, f):
+        """close a fact / goal produced under parameters: forall params. inner guards => f"""
+        if not self.params:
+            return f, list(self.guards)
+        m = self.param_marks[0]
+        inner = self.guards[m:]
+        body = z3.Implies(z3.And(*inner), f) if inner else f
+        return z3.ForAll(list(self.params), body), list(self.guards[:m])
 
     def default_of(self, sort):
         if sort == I:
@@ -93,16 +123,36 @@ class Ctx:
             f = z3.BoolVal(f)
         if z3.is_true(f):
             return
-        if self.guards:
-            f = z3.Implies(z3.And(*self.guards), f)
+        if not self.guards and not self.params:
+            self._note_equality(f)
+        f, outer = self._close(f)
+        if outer:
+            f = z3.Implies(z3.And(*outer), f)
         self.pc.append(f)
 
+    def _note_equality(self, f):
+        """remember `term == literal` facts: branch conditions are rewritten with them before asking the solver"""
+        if z3.is_and(f):
+            for c in f.children():
+                self._note_equality(c)
+            return
+        if z3.is_eq(f):
+            a, b = f.children()
+            for x, y in ((a, b), (b, a)):
+                if _is_value(y) and not _is_value(x):
+                    self.subst.append((x, y))
+                    return
+
     def hyps(self):
+        if self.params:
+            return list(self.pc) + list(self.guards[:self.param_marks[0]])
         return list(self.pc) + list(self.guards)
 
     def oblige(self, name, goal, node=None, kind="safety", note=""):
         if isinstance(goal, bool):
             goal = z3.BoolVal(goal)
+        if self.params:
+            goal, _ = self._close(goal)
         if z3.is_true(goal):
             goal_s = goal
         else:
@@ -171,6 +221,8 @@ class Ctx:
     def branch(self, cond, desc):
         """cond: z3 Bool; returns python bool, path condition extended"""
         cond_s = z3.simplify(cond)
+        if self.subst and not z3.is_true(cond_s) and not z3.is_false(cond_s):
+            cond_s = z3.simplify(z3.substitute(cond_s, *self.subst))
         if z3.is_true(cond_s):
             return True
         if z3.is_false(cond_s):
@@ -219,8 +271,7 @@ class Ctx:
         return self.smap(("item", str(sort), path), [I, I], sort)
 
     def sitem(self, lst, idx):
-        zs = [z3.Select(z3.Select(self.item_map(p, s), lst.z), idx) for p, s in lst.elem.comps()]
-        return lst.elem.unpack(zs)
+        return lst.elem.unpack(self.item_terms(lst, idx))
 
     def set_list(self, lst, new_len, item_fn_or_store):
         """functional update of one SMT list. item_fn_or_store: ('store', idx, val) or
@@ -235,20 +286,17 @@ class Ctx:
                 self.sheap[("item", str(s), p)] = z3.Store(m, lst.z, z3.Store(z3.Select(m, lst.z), idx, zv))
         else:
             fn = item_fn_or_store[1]
-            k = z3.Int("k!lr")
-            new_inners = []
-            for (p, s) in comps:
-                new_inners.append(self.fresh("items", z3.ArraySort(I, s)))
+            self.counter += 1
+            k = z3.Int(f"k!lr{self.counter}")
             terms = fn(k)
-            for inner, t in zip(new_inners, terms):
-                self.assume(z3.ForAll([k], z3.Select(inner, k) == t))
+            new_inners = [z3.Lambda([k], t) for t in terms]
             for (p, s), inner in zip(comps, new_inners):
                 m = self.item_map(p, s)
                 self.sheap[("item", str(s), p)] = z3.Store(m, lst.z, inner)
         self.sheap[("len",)] = z3.Store(self.len_map(), lst.z, new_len)
 
     def item_terms(self, lst, idx):
-        return [z3.Select(z3.Select(self.item_map(p, s), lst.z), idx) for p, s in lst.elem.comps()]
+        return [z3.simplify(z3.Select(z3.Select(self.item_map(p, s), lst.z), idx)) for p, s in lst.elem.comps()]
 
     def field_map(self, cname, fname, path, sort):
         return self.smap(("f", cname, fname, path), [I], sort)
